@@ -27,31 +27,31 @@ Qed.
 
 Lemma final_tail_refuted : exists p rho pcs c e x v,
   wf p = true /\ denote p rho = Some pcs /\ dget c (final_expr p) = Some e /\ p_end pcs c = Some x /\
-  eval rho e = Some v /\ ~ v == x /\ guard_C07_final_tail p rho = false /\ guard_C07_for_final_floor_path p rho = true.
+  eval rho e = Some v /\ ~ v == x /\ guard_C07_final_tail p rho = false.
 Proof.
   exists (Seq [Const (EC 1) [(chA, EC 1)]; Const (EC 0) [(chA, EC 5)]]), env_empty.
   eexists. exists chA. eexists. eexists. eexists.
   split; [vm_compute; reflexivity|]. split; [vm_compute; reflexivity|]. split; [vm_compute; reflexivity|].
   split; [vm_compute; reflexivity|]. split; [vm_compute; reflexivity|]. split; [vm_compute; discriminate|].
-  split; vm_compute; reflexivity.
+  vm_compute; reflexivity.
 Qed.
 
 Definition loop_tab : pt := Table [(chA, [(EC 0, EV vi, IHold); (EC 1, EAdd (EV vi) (EC 1), ILin)])].
 
-Lemma final_floor_refuted : exists p rho pcs c e x v,
+Lemma final_floor_repaired : exists p rho pcs c e x v,
   wf p = true /\ denote p rho = Some pcs /\ dget c (final_expr p) = Some e /\ p_end pcs c = Some x /\
-  eval rho e = Some v /\ ~ v == x /\ guard_C07_final_tail p rho = true /\ guard_C07_for_final_floor_path p rho = false.
+  eval rho e = Some v /\ v == x /\ x == 5 /\ guard_C07_final_tail p rho = true /\ guard_C07_for_final_floor_path p rho = false.
 Proof.
   exists (For vi (EC 0) (EC 5) (EC 2) loop_tab), env_empty.
   eexists. exists chA. eexists. eexists. eexists.
   split; [vm_compute; reflexivity|]. split; [vm_compute; reflexivity|]. split; [vm_compute; reflexivity|].
-  split; [vm_compute; reflexivity|]. split; [vm_compute; reflexivity|]. split; [vm_compute; discriminate|].
-  split; vm_compute; reflexivity.
+  split; [vm_compute; reflexivity|]. split; [vm_compute; reflexivity|]. split; [vm_compute; reflexivity|].
+  split; [vm_compute; reflexivity|]. split; vm_compute; reflexivity.
 Qed.
 
 Lemma guards_nonvacuous : exists p rho pcs c,
   wf p = true /\ guard_C07_initial_head p rho = true /\ guard_C07_final_tail p rho = true /\
-  guard_C07_for_final_floor_path p rho = true /\ denote p rho = Some pcs /\ (length pcs = 3)%nat /\
+  denote p rho = Some pcs /\ (length pcs = 3)%nat /\
   (exists e v, dget c (integral_expr p) = Some e /\ eval rho e = Some v) /\
   (exists e v x, dget c (initial_expr p) = Some e /\ eval rho e = Some v /\ p_at0 pcs c = Some x) /\
   (exists e v x, dget c (final_expr p) = Some e /\ eval rho e = Some v /\ p_end pcs c = Some x).
@@ -59,7 +59,7 @@ Proof.
   exists (For vi (EC 0) (EC 6) (EC 2) (Map loop_tab [(2%N, EV vi)] [(chA, Some 4%N)])), env_empty.
   eexists. exists 4%N.
   split; [vm_compute; reflexivity|]. split; [vm_compute; reflexivity|]. split; [vm_compute; reflexivity|].
-  split; [vm_compute; reflexivity|]. split; [vm_compute; reflexivity|]. split; [vm_compute; reflexivity|].
+  split; [vm_compute; reflexivity|]. split; [vm_compute; reflexivity|].
   split.
   { eexists. eexists. split; [vm_compute; reflexivity|]. vm_compute. reflexivity. }
   split.
